@@ -358,6 +358,20 @@ def dumpstruct_oracle(run: Run, rng: random.Random, thorough: bool):
                     out2 = dumpstruct(cs.s, data, color=color, output="string")
                     if hexdump(data, output="string") not in ANSI.sub("", out2):
                         problems.append("class form: dump of the data not shown")
+                    # the running offset of the dump starts at the `offset` given (the hex dump itself is held to Model/Hexdump.v above);
+                    # the printed form is the string form
+                    for off in (0x1230, 7, rng.randrange(1, 1 << 24)):
+                        for form, o3 in (("instance", dumpstruct(obj, offset=off, color=color, output="string")),
+                                         ("class", dumpstruct(cs.s, data, offset=off, color=color, output="string"))):
+                            if hexdump(obj.dumps() if form == "instance" else data, offset=off, output="string") not in ANSI.sub("", o3):
+                                problems.append(f"{form} form, offset={off:#x}: the dump does not start at that offset: {ANSI.sub('', o3).strip().splitlines()[0]!r}")
+                    import contextlib
+                    import io
+                    buf = io.StringIO()
+                    with contextlib.redirect_stdout(buf):
+                        dumpstruct(obj, offset=0x20, color=color, output="print")
+                    if buf.getvalue().rstrip("\n") != dumpstruct(obj, offset=0x20, color=color, output="string").rstrip("\n"):
+                        problems.append("the printed form differs from the string form")
                 except Exception as e:  # noqa: BLE001
                     problems = [f"raises {type(e).__name__}: {e}"]
                 if problems:
